@@ -666,12 +666,9 @@ class Balancer:
         bound_max = right_max if is_equal else (right_max - 1 if is_lt else right_max + 1)
         bound_min = right_min if is_equal else (right_min - 1 if is_lt else right_min + 1)
 
-        if is_lt and bound_max < int_min:
-            # if the bound max is negative and we're unsigned less than, we're fucked
-            raise ClaripyBalancerUnsatError
-        if not is_lt and bound_min > int_max:
-            # if the bound min is too big, we're fucked
-            raise ClaripyBalancerUnsatError
+        # A bound below int_min / above int_max does not mean unsatisfiable here: the truism may have been balanced across
+        # a modular addition (x - 8 > 7 becomes x > 15 at 4 bits, and holds for x in [0, 7]); the bound then wraps around.
+        # Truly unsatisfiable comparisons are caught on the original truism in _doit().
 
         current_min = int_min
         current_max = int_max
